@@ -156,7 +156,7 @@ class VttContext:
       self._paragraphs[-1].append_text("\n")
 
     if isinstance(element, model.Text):
-      self._paragraphs[-1].append_text(element.get_text())
+      self._paragraphs[-1].append_text(element.get_text().replace('&', '&amp;').replace('<', '&lt;'))
 
   def process_p(self, region: ISD.Region, element: model.P, begin: Fraction, end: Optional[Fraction]):
     """Process p element"""
